@@ -15,7 +15,7 @@ def main():
             print(f"no check for {prop}")
             sys.exit(2)
         raise
-    common.main_wrapper(mod.run, prop)
+    common.main_wrapper(mod.run, prop, mod)
 
 if __name__ == "__main__":
     main()
